@@ -14,7 +14,7 @@
     products included (that is the second term).  Player two's utility is the exact negation. *)
 From Coq Require Import List ZArith Reals Floats Bool.
 From Flocq Require Import Core.
-From Cfr.theories Require Import Num FInst RInst Tree GameWF Strat Eval Valid EvalSpec EvalProofs TruncFloat EvalFloat.
+From Cfr.theories Require Import Num FInst RInst Tree GameWF Strat Eval Valid EvalSpec EvalProofs TruncFloat EvalFloat ScaleFloatBR BRFloat.
 Import ListNotations.
 Local Open Scope R_scope.
 Local Notation float := PrimFloat.float.
@@ -69,9 +69,139 @@ Example C01_binary64_example : let uF := @expected FNum ex_g ex_s1 ex_s2 in
   <= 7 * bpow radix2 (-52) * (S_abs ex_g ex_s1 ex_s2 + 4 * 3 * bpow radix2 (-1022)).
 Proof. exact ex_bound. Qed.
 
+(** ** The best response, the regrets and the exploitability reported by [get_info], at binary64
+    ([theories/BRFloat.v]; [regret::best_response] = [Eval.br_value]: collect the own nodes with their
+    reaches, resolve the infosets last to first (search every action's subtree, keep the maximum, divide by
+    the total reach under the D16 guard [0 < total]), search the root).  [RowSum c]: every row's exact sum is
+    at most [(1+2^-53)^c] (a row of at most [c] entries whose binary64 sum is <= 1: [rowsumb_spec]) — without
+    it, entries merely in [0,1] let infoset values grow geometrically with the depth.
+    [C01_binary64_best_response_finite]: no hypothesis on underflow: the value is finite and at most
+    [2 (B + n/2)] ([n] own infosets; the [n/2] is real: with a subnormal reach [1.5 * 2^-1074] rounds to
+    [2 * 2^-1074], so an infoset value can exceed the largest payoff).  [..._bounded]: when no recorded reach
+    is subnormal ([NoUF]) the clean bound [(1+2^-53)^ops * B].  [..._error]: when no product formed by
+    [collect] underflows ([CollOK], checker [collokb_spec]) the binary64 best response is within
+    [ops * 2^-52 * 2B] of the real-number model's best response *on the same data*, and so are the two
+    regrets and the exploitability ([C01_binary64_reported_numbers_error]; the real-number quantities are the
+    ones the theorems of [C01.v] are about). *)
+Theorem C01_binary64_best_response_finite :
+  forall (g : @game FNum) (me : bool) (so : list (list float)) (B : R) (c : nat),
+  TblOK (g_chance g) -> TblOK so -> RowSum c (g_chance g) -> RowSum c so ->
+  1 <= B -> PayOK B (g_root g) ->
+  (Z.of_nat (br_N g) < 2 ^ 53)%Z ->
+  INR (S (br_n g me) * br_Ks g c) * bpow radix2 (-53) <= / 2 ->
+  (B + INR (S (br_n g me)) * / 2) * INR (S (br_N g)) <= bpow radix2 1000 ->
+  Ffin (@br_value FNum g me so) /\
+  Rabs (FR (@br_value FNum g me so))
+    <= (1 + bpow radix2 (-53)) ^ br_ops g me c * (B + INR (br_n g me) * / 2) /\
+  Rabs (FR (@br_value FNum g me so)) <= 2 * (B + INR (br_n g me) * / 2).
+Proof. exact br_value_float_finite. Qed.
+
+Theorem C01_binary64_best_response_bounded :
+  forall (g : @game FNum) (me : bool) (so : list (list float)) (B : R) (c : nat),
+  TblOK (g_chance g) -> TblOK so -> RowSum c (g_chance g) -> RowSum c so ->
+  1 <= B -> PayOK B (g_root g) -> NoUF g me so ->
+  (Z.of_nat (br_N g) < 2 ^ 53)%Z ->
+  INR (S (br_n g me) * br_Ks g c) * bpow radix2 (-53) <= / 2 ->
+  B * INR (S (br_N g)) <= bpow radix2 1000 ->
+  Ffin (@br_value FNum g me so) /\
+  Rabs (FR (@br_value FNum g me so)) <= (1 + bpow radix2 (-53)) ^ br_ops g me c * B /\
+  Rabs (FR (@br_value FNum g me so)) <= 2 * B.
+Proof. exact br_value_float_bounded. Qed.
+
+Theorem C01_binary64_reported_numbers_finite :
+  forall (g : @game FNum) (prof : list float * list float) (B : R) (c : nat),
+  let s1 := split_by (fst prof) (arities g true) in
+  let s2 := split_by (snd prof) (arities g false) in
+  TblOK (g_chance g) -> Forall fin01 (fst prof) -> Forall fin01 (snd prof) ->
+  RowSum c (g_chance g) -> RowSum c s1 -> RowSum c s2 ->
+  1 <= B -> PayOK B (g_root g) ->
+  (Z.of_nat (br_N g) < 2 ^ 53)%Z ->
+  INR (S (br_n g true) * br_Ks g c) * bpow radix2 (-53) <= / 2 ->
+  INR (S (br_n g false) * br_Ks g c) * bpow radix2 (-53) <= / 2 ->
+  (B + INR (S (br_n g true)) * / 2) * INR (S (br_N g)) <= bpow radix2 1000 ->
+  (B + INR (S (br_n g false)) * / 2) * INR (S (br_N g)) <= bpow radix2 1000 ->
+  let I := @info FNum g prof in
+  Ffin (si_util I) /\
+  Ffin (si_reg1 I) /\ 0 <= FR (si_reg1 I) /\
+  Ffin (si_reg2 I) /\ 0 <= FR (si_reg2 I) /\
+  Ffin (@si_regret FNum I) /\ 0 <= FR (@si_regret FNum I) /\
+  FR (si_reg1 I) <= FR (@si_regret FNum I) /\ FR (si_reg2 I) <= FR (@si_regret FNum I) /\
+  FR (@si_regret FNum I) <= bpow radix2 1003.
+Proof. exact info_float_finite. Qed.
+
+Theorem C01_binary64_best_response_error :
+  forall (g : @game FNum) (me : bool) (so : list (list float)) (B : R) (c : nat),
+  TblOK (g_chance g) -> TblOK so -> RowSum c (g_chance g) -> RowSum c so ->
+  1 <= B -> PayOK B (g_root g) ->
+  CollOK (g_chance g) so me (g_root g) 1%float ->
+  (Z.of_nat (br_N g) < 2 ^ 53)%Z ->
+  INR (S (br_n g me) * br_Ke g) * bpow radix2 (-53) <= / 2 ->
+  INR (S (br_n g me) * (c * br_D g)) * bpow radix2 (-53) <= / 2 ->
+  B * INR (S (br_N g)) <= bpow radix2 1000 ->
+  Ffin (@br_value FNum g me so) /\
+  Rabs (FR (@br_value FNum g me so) - @br_value RNum (gameR g) me (tblR so))
+    <= ((1 + bpow radix2 (-53)) ^ br_err_ops g me - 1) * br_mass g me B c /\
+  Rabs (FR (@br_value FNum g me so) - @br_value RNum (gameR g) me (tblR so))
+    <= INR (br_err_ops g me) * bpow radix2 (-52) * (2 * B) /\
+  Rabs (@br_value RNum (gameR g) me (tblR so)) <= 2 * B.
+Proof. exact br_value_float_error_simple. Qed.
+
+Theorem C01_binary64_reported_numbers_error :
+  forall (g : @game FNum) (prof : list float * list float) (B : R) (c : nat),
+  let s1 := split_by (fst prof) (arities g true) in
+  let s2 := split_by (snd prof) (arities g false) in
+  TblOK (g_chance g) -> Forall fin01 (fst prof) -> Forall fin01 (snd prof) ->
+  RowSum c (g_chance g) -> RowSum c s1 -> RowSum c s2 ->
+  1 <= B -> PayOK B (g_root g) ->
+  CollOK (g_chance g) s2 true (g_root g) 1%float ->
+  CollOK (g_chance g) s1 false (g_root g) 1%float ->
+  (Z.of_nat (br_N g) < 2 ^ 53)%Z ->
+  (forall me, INR (S (br_n g me) * br_Kall g c) * bpow radix2 (-53) <= / 2) ->
+  (forall me, (B + INR (S (br_n g me)) * / 2) * INR (S (br_N g)) <= bpow radix2 1000) ->
+  let I := @info FNum g prof in
+  let IR := @info RNum (gameR g) (map FR (fst prof), map FR (snd prof)) in
+  let Eu := INR (k_ops g) * bpow radix2 (-52) * mass g s1 s2 B in
+  let Eb1 := INR (br_err_ops g true) * bpow radix2 (-52) * (2 * B) in
+  let Eb2 := INR (br_err_ops g false) * bpow radix2 (-52) * (2 * B) in
+  let Yb := 2 * B + mass g s1 s2 B in
+  let E1 := (Eb1 + Eu) + bpow radix2 (-53) * (Yb + (Eb1 + Eu)) in
+  let E2 := (Eb2 + Eu) + bpow radix2 (-53) * (Yb + (Eb2 + Eu)) in
+  Rabs (FR (si_util I) - si_util IR) <= Eu /\
+  Rabs (FR (si_reg1 I) - si_reg1 IR) <= E1 /\
+  Rabs (FR (si_reg2 I) - si_reg2 IR) <= E2 /\
+  Rabs (FR (@si_regret FNum I) - @si_regret RNum IR) <= Rmax E1 E2.
+Proof. exact info_float_error. Qed.
+
+(** non-vacuity: the game [bx_g] (a chance move, one infoset per player), [B = 3], [c = 2] *)
+Example C01_binary64_best_response_example :
+  Ffin (@br_value FNum bx_g true bx_s2) /\
+  Rabs (FR (@br_value FNum bx_g true bx_s2)) <= (1 + bpow radix2 (-53)) ^ 57 * 3 /\
+  Ffin (@br_value FNum bx_g false bx_s1) /\
+  Rabs (FR (@br_value FNum bx_g false bx_s1)) <= (1 + bpow radix2 (-53)) ^ 57 * 3.
+Proof. exact bx_br_bounded. Qed.
+
+Example C01_binary64_reported_numbers_example :
+  let I := @info FNum bx_g bx_prof in
+  let IR := infoR bx_g bx_prof in
+  let Eu := 9 * bpow radix2 (-52) * mass bx_g bx_s1 bx_s2 3 in
+  let Eb := 52 * bpow radix2 (-52) * (2 * 3) in
+  let E := (Eb + Eu) + bpow radix2 (-53) * (2 * 3 + mass bx_g bx_s1 bx_s2 3 + (Eb + Eu)) in
+  Rabs (FR (si_util I) - si_util IR) <= Eu /\
+  Rabs (FR (si_reg1 I) - si_reg1 IR) <= E /\
+  Rabs (FR (si_reg2 I) - si_reg2 IR) <= E /\
+  Rabs (FR (@si_regret FNum I) - @si_regret RNum IR) <= E.
+Proof. exact bx_info_error. Qed.
+
 Print Assumptions C01_binary64_utility_error.
 Print Assumptions C01_binary64_utility_relative_error.
 Print Assumptions C01_binary64_exact_is_the_real_model.
 Print Assumptions C01_binary64_exact_is_the_leaf_sum.
 Print Assumptions C01_binary64_reported_utility.
 Print Assumptions C01_binary64_example.
+Print Assumptions C01_binary64_best_response_finite.
+Print Assumptions C01_binary64_best_response_bounded.
+Print Assumptions C01_binary64_reported_numbers_finite.
+Print Assumptions C01_binary64_best_response_error.
+Print Assumptions C01_binary64_reported_numbers_error.
+Print Assumptions C01_binary64_best_response_example.
+Print Assumptions C01_binary64_reported_numbers_example.
